@@ -19,7 +19,7 @@ def to_py(x):
     if isinstance(x, np.ma.MaskedArray):
         x = x.filled(np.nan)
     if isinstance(x, np.ndarray):
-        return x.tolist()
+        return to_py(x.tolist()) if x.dtype == object else x.tolist()
     if isinstance(x, (np.floating,)):
         return float(x)
     if isinstance(x, (np.integer,)):
@@ -91,7 +91,7 @@ def _leaf_ok(kind, x, e, scale=None):
         if _is_any(num) or _is_any(den):
             return True
         want2 = fq_value(num, den)
-        if math.isnan(want2):
+        if math.isnan(want2) or want2 < 0:
             return isinstance(x, float) and math.isnan(x)
         if not isinstance(x, (int, float)) or (isinstance(x, float) and math.isnan(x)):
             return False
@@ -167,7 +167,7 @@ def t_tail(t2, df):
     """two-sided Student-t tail of sqrt(t2) with df degrees of freedom (scipy, as the
     library itself uses); NaN when undefined"""
     from scipy.stats import t as student
-    if math.isnan(t2) or math.isnan(df):
+    if math.isnan(t2) or math.isnan(df) or t2 < 0:
         return float("nan")
     with np.errstate(all="ignore"):
         return float(2 * (1 - student.cdf(math.sqrt(t2) if t2 != float("inf") else t2, df=df)))
